@@ -654,9 +654,24 @@ def task_init_unit():
             st.ghost['children_assigned'] = BoolVal(True)
             return children_setter_call(eng, st, recv.e, args[0].e, node.lineno)
 
+        LX = ['ND-no-link-listed-twice', 'O1-list-objects-distinct', 'SYNC-ghost-relation-mirrors-the-lists', 'C01/M2-dependency-relation-acyclic']          # the clauses of the link invariant that Inv does not carry
+
         def c_set_links(side):
+            """self.successors = ... / self.predecessors = ...: the proved contract of the link setter of that side.  Two ghost relations mirror the lists: E (predecessors) and Es (successors),
+            each the transpose of the other; after a call on one side the relation of the other side is re-introduced by its definition (SYNC) and is acyclic because its transpose is (TRANSP_AX)"""
+            mine, other = ('E', 'Es') if side == 'pre' else ('Es', 'E')
+
             def c(eng, st, recv, args, kws, node):
+                keep = st.ghost['E']; st.ghost['E'] = st.ghost[mine]          # link_setter_call works on the ghost named E
                 res, rc = link_setter_call(eng, st, side, recv.e, args[0].e, node.lineno)
+                st.ghost['E'] = keep
+                for s2, r in res:
+                    if isinstance(r, Raise): continue
+                    new_mine = s2.ghost['E']; h2 = H(eng, s2)
+                    new_other = Const(f'E!{fresh_id()}', REL)
+                    s2.assume(LInv_side('suc' if side == 'pre' else 'pre', h2, new_other)['SYNC-ghost-relation-mirrors-the-lists'])          # definition of the mirror of the other side
+                    s2.ghost[mine] = new_mine; s2.ghost[other] = new_other
+                    if mine != 'E': s2.ghost['E'] = new_other
                 return res
             return c
 
@@ -665,25 +680,31 @@ def task_init_unit():
         E_ok = lambda c, side: LInv_side(side, hc(c), c.st.ghost['E'])
         fc = {'sig': {'self': T, 'id': INT, 'name': ANY, 'resource': ANY, 'start': ANY, 'end': ANY, 'milestone': ANY, 'estimate': ANY, 'spent': ANY, 'parent': T, 'children': LT, 'predecessors': LT,
                       'successors': LT, 'min_start': ANY, 'kwargs': KWD},
-              'ghost': {'attach_rejected': BOOL, 'E': S('REL', REL), 'children_given': BOOL},
+              'ghost': {'attach_rejected': BOOL, 'E': S('REL', REL), 'Es': S('REL', REL), 'children_given': BOOL},
               'requires': [(l_, (lambda l_: lambda c: Inv(hc(c))[l_])(l_)) for l_ in LABS] +
                           [('the-object-under-construction-is-blank', lambda c: blank(hc(c), me(c))), ('id-is-not-the-reserved-one', lambda c: c['id'] != EMPTY),
                            ('ghost-flag-starts-false', lambda c: Not(c.st.ghost['attach_rejected'])),
                            ('children-given-as-a-list-of-public-tasks', lambda c: ForAll([x], Implies(mem(c['children'], x), And(x != null, x != me(c), hc(c).tid[x] != EMPTY)))),
-                           ('no-dependency-arguments (domain of this proof; with them: bounded stand-in)', lambda c: And(ln(c['predecessors']) == 0, ln(c['successors']) == 0))],
+                           ('dependency-arguments-are-lists-of-public-tasks', lambda c: ForAll([x], Implies(Or(mem(c['predecessors'], x), mem(c['successors'], x)), And(x != null, hc(c).tid[x] != EMPTY)))),
+                           ] +
+                          [('links(predecessors)/' + l_, (lambda l_: lambda c: LInv_side('pre', hc(c), c.st.ghost['E'])[l_])(l_)) for l_ in LX] +
+                          [('links(successors)/' + l_, (lambda l_: lambda c: LInv_side('suc', hc(c), c.st.ghost['Es'])[l_])(l_)) for l_ in LX],
               'loops': {0: {'fingerprint': 'for (k, v) in kwargs.items()', 'invariant': [('additional-attributes-do-not-touch-the-task-graph', lambda c: And(c['_i0'] >= 0, graph_same(c, hc(c), H(c.eng, c.entry)),
                                                                                                                                                      *[Inv(hc(c))[l_] for l_ in LABS]))]}},
               'raises': {'RuntimeError': []},          # the constructor is not atomic (known finding A-12): nothing is claimed for a refused construction
               'ensures': [(l_, (lambda l_: lambda c: Inv(hc(c))[l_])(l_)) for l_ in LABS] +
                          [('C05/the-task-carries-the-given-id', lambda c: hc(c).tid[me(c)] == c['id']),
                           ('C05/ids-of-all-other-tasks-unchanged', lambda c: ForAll([x], Implies(x != me(c), hc(c).tid[x] == h0(c).tid[x]))),
-                          ('C16/parent-as-given', lambda c: Implies(c['parent'] != null, hc(c).par[me(c)] == c['parent']))]}
-        def c_unreachable(eng, st, recv, args, kws, node):
-            st.oblige('domain/no-dependency-arguments-so-the-link-setters-are-not-reached', BoolVal(False), f'@{node.lineno}')
-            return []          # proved unreachable: the path ends here
+                          ('C16/parent-as-given', lambda c: Implies(c['parent'] != null, hc(c).par[me(c)] == c['parent'])),
+                          ('C16/predecessors-as-given', lambda c: Implies(ln(c['predecessors']) > 0, ForAll([x], mem(hc(c).P(me(c)), x) == mem(c['predecessors'], x)))),
+                          ('C16/successors-as-given-(also-when-predecessors-are-set-afterwards)', lambda c: Implies(ln(c['successors']) > 0, ForAll([x], mem(hc(c).S(me(c)), x) == mem(c['successors'], x)))),
+                          ('C01/M2-predecessor-relation-acyclic', lambda c: AcycP(c.st.ghost['E'])), ('C01/M2-successor-relation-acyclic', lambda c: AcycP(c.st.ghost['Es'])),
+                          ('links/ghost-relations-mirror-the-lists', lambda c: And(LInv_side('pre', hc(c), c.st.ghost['E'])['SYNC-ghost-relation-mirrors-the-lists'], LInv_side('suc', hc(c), c.st.ghost['Es'])['SYNC-ghost-relation-mirrors-the-lists'])),
+                          ('links/ND-no-link-listed-twice', lambda c: LInv_side('pre', hc(c), c.st.ghost['E'])['ND-no-link-listed-twice']),
+                          ('links/O1-list-objects-distinct', lambda c: LInv_side('pre', hc(c), c.st.ghost['E'])['O1-list-objects-distinct'])]}
         contracts = {'setprop:Task.estimate': c_plain_setter, 'setprop:Task.spent': c_plain_setter, 'Task.__setattr__': c_setattr,
-                     'setprop:Task.parent': c_set_parent, 'setprop:Task.children': c_set_children, 'setprop:Task.successors': c_unreachable, 'setprop:Task.predecessors': c_unreachable}
-        return Engine(F, 'Task.__init__', contracts, INIT_CLASSES, fc, plugins=[InitPlugin()]), LIST_AX + GRAPH_AX + KID_AX
+                     'setprop:Task.parent': c_set_parent, 'setprop:Task.children': c_set_children, 'setprop:Task.successors': c_set_links('suc'), 'setprop:Task.predecessors': c_set_links('pre')}
+        return Engine(F, 'Task.__init__', contracts, INIT_CLASSES, fc, plugins=[InitPlugin()]), LIST_AX + GRAPH_AX + KID_AX + DEP_AX + TRANSP_AX
     return Unit('Task.__init__', F, build, ['C01', 'C05', 'C11', 'C16'], timeout_ms=15000)
 
 
